@@ -206,6 +206,8 @@ def compile_run(job):
         env = dict(os.environ, ASAN_OPTIONS="detect_leaks=1:abort_on_error=0:halt_on_error=1:detect_stack_use_after_return=1",
                    UBSAN_OPTIONS="print_stacktrace=1:halt_on_error=1")
         rc, out = sh("./prog", timeout=60, cwd=d, env=env)
+        if rc == 124:  # a loaded machine, not the program (loops are bounded by the small inputs): one more, longer try
+            rc, out = sh("./prog", timeout=240, cwd=d, env=env)
         res["run_rc"], res["run_out"] = rc, out[-6000:]
     return res
 
